@@ -51,8 +51,11 @@ CHECKS = {
                   "parameter-file layouts) model-checked by TLC; every operation script / trajectory TLC emits is replayed into "
                   "the real mystic.monitors and mystic.munge code with comparison after every operation",
         text="Design invariants: len = calls, k transparent, every reported record is a recorded call, the argument of "
-             "+/extend/prepend/__setitem__ is unchanged, concatenation and slice order, write-then-read identity for the log "
-             "and the raw/support/converge layouts.  Every script over {Call, Slice, +, extend, prepend, __setitem__} on two "
+             "+/extend/prepend/__setitem__/indexing is unchanged, concatenation, slice and selection order (m[list], m[int array], "
+             "m[bool mask], m[(selector,)] return exactly the selected records in selection order with the same k; m[i] returns "
+             "(x_i, unscaled y_i)), write-then-read identity for the log "
+             "and the raw/support/converge layouts.  Every script over {Call, Slice, Index (list / int array / bool mask / 1-tuple forms), integer item, +, extend, prepend, "
+             "__setitem__} on two "
              "monitors with k in {None,1,2,-1}^2 (quick: 3 warm-up calls + 2 free operations; thorough 4+3, 5+2, 0+3) and "
              "every [a:b:c] slice on lengths 0..3/4 is replayed on Monitor, VerboseMonitor, LoggingMonitor and "
              "VerboseLoggingMonitor, comparing len/x/y/id of every object after every operation.  File trajectories (<=3/4 "
@@ -62,7 +65,9 @@ CHECKS = {
              "equality.",
         note="trusted: TLC, the transcription of Python slicing/_get_y/_process_ids into TLA+, the harness's injective map from "
              "ids to concrete values; the cost catalogue avoids |y| > max/2 (k*y overflow) and integer-0 costs; m.extend(m)/"
-             "m.prepend(m) excluded (never terminate: observation), ids in parameter files are int or None as documented",
+             "m.prepend(m) excluded (never terminate: observation), ids in parameter files are int or None as documented; "
+             "tuples of length >= 2 (projections into the parameter vectors), m[(i,)] and out-of-range selections are not modelled"
+             " (they raise or are outside the statement)",
         design_ref="DESIGN.md section 4/C20"),
     "C01": dict(
         level="model_checking",
